@@ -12,6 +12,7 @@ import (
 	"fmt"
 	"os"
 	"path/filepath"
+	"strconv"
 
 	"github.com/256dpi/lungo/bsonkit"
 
@@ -26,6 +27,12 @@ func main() {
 		os.Exit(2)
 	}
 	dir := os.Args[2]
+	if os.Args[1] == "rand" {
+		seed, _ := strconv.ParseInt(os.Args[3], 10, 64)
+		n, _ := strconv.Atoi(os.Args[4])
+		runRand(dir, seed, n)
+		return
+	}
 	pool := pools.OrderPool()
 	switch os.Args[1] {
 	case "gen":
